@@ -42,6 +42,15 @@ def main():
     from symx import loader
     loader.install()
     from symx import driver, selftest
+    # import (only import) every module of the library in the parent: the source digest in the evidence covers the
+    # whole package, and forked workers start with the modules loaded
+    import pkgutil
+    import pyscsi
+    for mi in pkgutil.walk_packages(pyscsi.__path__, "pyscsi."):
+        try:
+            importlib.import_module(mi.name)
+        except Exception:
+            pass
     mod = importlib.import_module("checks." + a.prop.lower())
     obs = mod.obligations(a.tier)
     if a.only:
